@@ -91,6 +91,32 @@ func zzC09_mux() {
 		vAssert(len(log) == 0, "no handler runs when none matches")
 		vAssert(report != nil && report.Message == m, "an error report is offered when no handler matches")
 	}
+	// a registration made after a dispatch (the mux may have remembered how it resolved the message):
+	// one key registered again, then the same message dispatched again
+	switch vChoice("reregister", 4) {
+	case 0:
+		vReach("C09_mux")
+		return
+	case 1:
+		mux.HandleIdx(own, mk(21))
+		expectIdx = 21
+	case 2:
+		mux.Handle("XX"+suffix, mk(22))
+		expectName = 22
+	case 3:
+		mux.Handle("ALL", mk(23))
+		expectAll = 23
+	}
+	log = nil
+	mux.ServeDIAM(nil, m)
+	want = expectIdx
+	if want == 0 {
+		want = expectName
+	}
+	if want == 0 {
+		want = expectAll
+	}
+	vAssert(len(log) == 1 && log[0] == want, "registering a key again replaces the earlier handler, also after messages have been dispatched")
 	vReach("C09_mux")
 }
 
